@@ -1,8 +1,8 @@
 use crate::{
     cfg::RegisterSet,
     parser::{
-        CsrIType, CsrType, HasRegisterSets, IArithType, Inst, InstructionProperties, ParserNode,
-        Register, RegisterProperties,
+        CsrIType, CsrType, HasRegisterSets, IArithType, Inst, InstructionProperties, LoadType,
+        ParserNode, Register, RegisterProperties,
     },
 };
 
@@ -85,6 +85,13 @@ impl HasGenValueInfo for ParserNode {
 
             ParserNode::LoadAddr(expr) => {
                 Some((expr.rd.get(), AvailableValue::Address(expr.name.clone())))
+            }
+            // A tracked memory value is a word: a narrower load gets a part
+            // of it, which is not tracked
+            ParserNode::Load(expr)
+                if !matches!(expr.inst.get(), LoadType::Lw | LoadType::Lwu) =>
+            {
+                None
             }
             ParserNode::Load(expr) => Some((
                 expr.rd.get(),
